@@ -181,6 +181,36 @@ def bin_ops(rng, fs, tier):
     return ops
 
 
+def marker_overflow_ops(rng, fs, tier):
+    """binary(): the invalid marker is `power2 + INVALID_FP` (= power2 - 32768), tested as `exp < 0` by the caller:
+    half-way-even truncated mantissas at exponents with power2 around and beyond 32768 (component and API level)"""
+    comp, api = [], []
+    for (r, b, fmt) in bin_formats(fs):
+        lg = b.bit_length() - 1
+        for ty in ("f64", "f32"):
+            bias = 1075 if ty == "f64" else 150
+            p = 53 if ty == "f64" else 24
+            ms = halfway_mantissas(rng, ty, 6) + [(1 << 63) + (1 << (63 - p))]
+            for m in ms:
+                ctlz = 64 - m.bit_length()
+                for target in (32766, 32767, 32768, 32769, 40000, 65536 + 5, 1 << 30, 1 << 35):
+                    e = (target - bias + ctlz) // lg
+                    comp.append("bin %s %s %d %d 1 0" % (ty, fmt, m, e))
+            if r == b:
+                # API level: exactly u64_step digits forming an even half-way pattern, one more non-zero digit
+                step = {2: 64, 4: 32, 8: 21, 16: 16, 32: 12}[r]
+                width = step * (r.bit_length() - 1)
+                top = (1 << (width - 1)) | (1 << (width - 1 - p))
+                digits = gens.to_radix(top, r)
+                if len(digits) != step:
+                    continue
+                for e in (30000 // lg, 33000 // lg, 40000 // lg, 70000 // lg):
+                    for tail in ("1", "0", "01"):
+                        s = digits + tail + chr(gens.exp_char(r)) + gens.exp_str(e, r)
+                        api.append(gens.pf_op(ty, fmt, s, r))
+    return comp, api
+
+
 def sbin_ops(rng, fs, tier):
     """slow_binary::<F, FORMAT>(Number{integer, fraction, exponent}): near-halfway digit strings with zero / non-zero tails"""
     ops = []
